@@ -261,10 +261,15 @@ func (t Percentage) serializeTo(writer io.StringWriter) {
 
 func (t Dimension) serializeTo(writer io.StringWriter) {
 	writer.WriteString(t.Value)
-	// Disambiguate with scientific notation
-	if t.Unit == "e" || t.Unit == "E" || strings.HasPrefix(t.Unit, "e-") || strings.HasPrefix(t.Unit, "E-") {
-		writer.WriteString("\\65 ")
-		writer.WriteString(serializeName(t.Unit[1:]))
+	// Disambiguate with scientific notation: a unit starting with "e" or "E"
+	// followed by nothing, "-" or a digit would be read as an exponent
+	if u := t.Unit; u != "" && (u[0] == 'e' || u[0] == 'E') && (len(u) == 1 || u[1] == '-' || ('0' <= u[1] && u[1] <= '9')) {
+		if u[0] == 'e' {
+			writer.WriteString("\\65 ")
+		} else {
+			writer.WriteString("\\45 ")
+		}
+		writer.WriteString(serializeName(u[1:]))
 	} else {
 		writer.WriteString(serializeIdentifier(t.Unit))
 	}
